@@ -1,6 +1,6 @@
 """Generic property runner: engine jobs -> native replays -> verdict + evidence."""
 
-import json
+import json, random
 import os
 import sys
 import time
@@ -59,8 +59,18 @@ def run_property(prop, tier, groups, required_covers=None, assumptions=None, bou
     global_writes = {}
     impure = {}
     load_s = 0.0
-    for g in groups:
-        out, err, wall = driver.run_engine(g.pkg, g.jobs, qtimeout_ms=qtimeout_ms, wall_timeout_s=wall_timeout_s, tests=g.tests, files=g.files)
+    # The thorough tier explores as much of its job list as fits a time budget (VERIF_THOROUGH_BUDGET_S, default one
+    # hour of wall clock for the engine runs of one property); jobs that were not started or were cut by the budget
+    # are reported as outside the bound, never as held.
+    budget_total = 0 if tier == "quick" else int(os.environ.get("VERIF_THOROUGH_BUDGET_S", "3600") or 0)
+    not_run = cut = 0
+    for gi, g in enumerate(groups):
+        budget_s = 0
+        if budget_total:
+            # so that what fits the budget is a spread sample of the list and not its head (VERIF_SEED picks another)
+            random.Random(seed * 1000003 + gi).shuffle(g.jobs)
+            budget_s = max(60, (budget_total - (time.time() - t0)) / (len(groups) - gi))
+        out, err, wall = driver.run_engine(g.pkg, g.jobs, qtimeout_ms=qtimeout_ms, wall_timeout_s=wall_timeout_s, tests=g.tests, files=g.files, budget_s=budget_s)
         if err:
             problems.append("%s: %s" % (g.pkg, err))
             continue
@@ -68,10 +78,15 @@ def run_property(prop, tier, groups, required_covers=None, assumptions=None, bou
         for jr in out["results"]:
             jr["_pkg"] = g.pkg
             all_results.append(jr)
+            if jr.get("not_run"):
+                not_run += 1
+                continue
             if jr.get("error"):
                 problems.append("%s %s %s: engine error: %s" % (g.pkg, jr["harness"], jr.get("params"), jr["error"][:600]))
                 continue
-            if not jr.get("complete"):
+            if jr.get("cut_by_budget"):
+                cut += 1
+            elif not jr.get("complete"):
                 problems.append("%s %s %s: exploration incomplete (%s)" % (g.pkg, jr["harness"], jr.get("params"), jr.get("notes")))
             if jr.get("undischarged"):
                 problems.append("%s %s %s: undischarged obligations: %s" % (g.pkg, jr["harness"], jr.get("params"), jr["undischarged"][:5]))
@@ -262,6 +277,12 @@ def run_property(prop, tier, groups, required_covers=None, assumptions=None, bou
     if not samples:
         for jr in all_results[:3]:
             samples.append({"harness": jr.get("harness"), "params": jr.get("params"), "paths": jr.get("paths"), "outcomes": jr.get("outcomes")})
+    if not_run or cut:
+        outside["jobs of the tier's list not started within the time budget (VERIF_THOROUGH_BUDGET_S)"] = not_run
+        outside["jobs cut by the time budget (their explored paths count, the rest does not)"] = cut
+        print("NOTE: time budget of %ds used up: %d of %d jobs not started, %d cut; they are outside the bound of this run" % (
+            budget_total, not_run, len(all_results), cut))
+    all_results = [jr for jr in all_results if not jr.get("not_run")]
     job_table = []
     for jr in all_results:
         job_table.append({"pkg": jr["_pkg"], "harness": jr.get("harness"), "params": jr.get("params"), "paths": jr.get("paths"),
@@ -288,7 +309,8 @@ def run_property(prop, tier, groups, required_covers=None, assumptions=None, bou
             "samples": samples,
             "obligations": tot["obligations"],
             "discharged": tot["discharged"],
-            "exhaustive": not problems,
+            "exhaustive": not problems and not not_run and not cut,
+            "time_budget_s": budget_total,
             "explanation": "bounded symbolic execution of the go/ssa form of /repo's current sources; every feasible path inside the "
                            "stated bounds is explored (states = feasible paths, transitions = symbolic branch decisions) and each "
                            "assertion is a solver query over all input values on that path",
